@@ -14,6 +14,7 @@ import (
 	"k8s.io/apimachinery/pkg/util/sets"
 	"k8s.io/client-go/tools/record"
 	clock "k8s.io/utils/clock/testing"
+	"sigs.k8s.io/controller-runtime/pkg/client"
 	"sigs.k8s.io/controller-runtime/pkg/client/interceptor"
 
 	v1 "sigs.k8s.io/karpenter/pkg/apis/v1"
@@ -34,19 +35,33 @@ import (
 
 const kfOverride = "offering-capacity-override-above-base-capacity"
 
+// lifecycle states of an existing node (C03.Model.nstate)
+const (
+	nsInFlight = iota
+	nsReady
+	nsDisruptedTaint
+	nsCordoned
+	nsNotReady
+	nsUninitialized
+	nsMarkedForDeletion
+	nsDeleting
+)
+
+var nstateNames = []string{"NInFlight", "NReady", "NDisruptedTaint", "NCordoned", "NNotReady", "NUninitialized", "NMarkedForDeletion", "NDeleting"}
+
 type pcase struct {
-	Kind      string             `json:"kind"`
-	KfKey     string             `json:"kf_key,omitempty"`
-	Limits    map[string]int64   `json:"limits"`
-	Catalog   []pIT              `json:"catalog"`
-	Existing  []map[string]int64 `json:"existing_active_nodes"`
-	Deleting  int                `json:"existing_deleting_nodes"`
-	Pods      []string           `json:"pods"`
-	Anti      bool               `json:"pods_anti_affine"`
-	Claims    [][]string         `json:"new_nodeclaim_options"`
-	Launched  []string           `json:"launched"`
-	Remaining map[string]int64   `json:"remaining_after_solve"`
-	Exceeded  []string           `json:"exceeded,omitempty"`
+	Kind      string                   `json:"kind"`
+	KfKey     string                   `json:"kf_key,omitempty"`
+	Limits    map[string]int64         `json:"limits"`
+	Catalog   []pIT                    `json:"catalog"`
+	Existing  []map[string]interface{} `json:"existing_nodes"`
+	Deleting  int                      `json:"existing_being_deleted"`
+	Pods      []string                 `json:"pods"`
+	Anti      bool                     `json:"pods_anti_affine"`
+	Claims    [][]string               `json:"new_nodeclaim_options"`
+	Launched  []string                 `json:"launched"`
+	Remaining map[string]int64         `json:"remaining_after_solve"`
+	Exceeded  []string                 `json:"exceeded,omitempty"`
 }
 
 type pIT struct {
@@ -95,6 +110,9 @@ func runP(c *kit.Ctx, r *kit.Rand, mode int) {
 	if corpus {
 		nIT, start = 1, 1
 	}
+	if mode == 4 {
+		nIT, start = 2, 1 // 2 and 4 cpu
+	}
 	var catalog []*cloudprovider.InstanceType
 	var jcat []pIT
 	for i := 0; i < nIT; i++ {
@@ -130,30 +148,103 @@ func runP(c *kit.Ctx, r *kit.Rand, mode int) {
 	if corpus {
 		limits = corev1.ResourceList{"nodes": *resource.NewQuantity(2, resource.DecimalSI)}
 	}
+	if mode == 4 {
+		limits = corev1.ResourceList{corev1.ResourceCPU: *resource.NewQuantity(6, resource.DecimalSI)}
+	}
 	np := test.NodePool(v1.NodePool{ObjectMeta: metav1.ObjectMeta{Name: "pool"}, Spec: v1.NodePoolSpec{Limits: v1.Limits(limits)}})
 	kit.Apply(ctx, cl, np)
 
 	cluster := state.NewCluster(clk, cl, cp)
 	prov := provisioning.NewProvisioner(cl, events.NewRecorder(&record.FakeRecorder{}), cp, cluster, clk, deviceallocation.NewController(cl), virtualpods.NewVirtualPodCache(cl))
 
-	// launched (in-flight) NodeClaims of the pool, some of them already deleting
-	nExisting, nDeleting := r.Intn(3), 0
+	// existing nodes of the pool in every lifecycle state a provisioning pass can meet. All of them are real API
+	// objects delivered to the real cluster state the way the informers / disruption queue would.
+	nExisting := r.Intn(4)
 	if corpus {
 		nExisting = 0
 	}
+	if mode == 4 { // corpus: seeded change C03-1 — limits cpu=6, one 4-cpu node with the disrupted taint
+		nExisting = 1
+	}
+	marked := map[string]bool{}
+	stateOf := map[string]int{}
 	for i := 0; i < nExisting; i++ {
 		it := kit.Pick(r, catalog)
-		nc := test.NodeClaim(v1.NodeClaim{
-			ObjectMeta: metav1.ObjectMeta{Name: fmt.Sprintf("existing-%d", i), Labels: map[string]string{
-				v1.NodePoolLabelKey: "pool", corev1.LabelInstanceTypeStable: it.Name, corev1.LabelTopologyZone: "test-zone-1", v1.CapacityTypeLabelKey: "on-demand"}},
-			Status: v1.NodeClaimStatus{ProviderID: fmt.Sprintf("fake://existing-%d", i), Capacity: it.Capacity, Allocatable: it.Allocatable()},
+		st := r.Intn(len(nstateNames))
+		if r.Chance(1, 3) {
+			st = nsDisruptedTaint
+		}
+		if mode == 4 {
+			it, st = catalog[len(catalog)-1], nsDisruptedTaint
+		}
+		name := fmt.Sprintf("existing-%d", i)
+		labels := map[string]string{v1.NodePoolLabelKey: "pool", corev1.LabelInstanceTypeStable: it.Name, corev1.LabelTopologyZone: "test-zone-1",
+			v1.CapacityTypeLabelKey: "on-demand"}
+		if st != nsInFlight {
+			labels[v1.NodeRegisteredLabelKey] = "true"
+			if st != nsUninitialized {
+				labels[v1.NodeInitializedLabelKey] = "true"
+			}
+		}
+		nc, node := test.NodeClaimAndNode(v1.NodeClaim{
+			ObjectMeta: metav1.ObjectMeta{Name: name, Labels: labels, Finalizers: []string{v1.TerminationFinalizer}},
+			Status:     v1.NodeClaimStatus{ProviderID: "fake://" + name, Capacity: it.Capacity, Allocatable: it.Allocatable()},
 		})
-		if r.Chance(1, 4) {
-			nc.Finalizers = []string{v1.TerminationFinalizer}
-			nc.DeletionTimestamp = &metav1.Time{Time: clk.Now()}
-			nDeleting++
+		node.Name = name
+		node.Spec.Taints = nil
+		node.Finalizers = nil
+		switch st {
+		case nsCordoned:
+			node.Spec.Unschedulable = true
+		case nsNotReady:
+			node.Status.Conditions = []corev1.NodeCondition{{Type: corev1.NodeReady, Status: corev1.ConditionFalse, Reason: "KubeletNotReady"}}
+		}
+		nc.Namespace, node.Namespace = "", ""
+		kit.Apply(ctx, cl, nc)
+		withNode := st != nsInFlight && !(st == nsDeleting && i%2 == 0)
+		if withNode {
+			kit.Apply(ctx, cl, node)
+		}
+		if st == nsDeleting {
+			if err := cl.Delete(ctx, nc); err != nil {
+				panic(err)
+			}
+			if err := cl.Get(ctx, client.ObjectKeyFromObject(nc), nc); err != nil {
+				panic(err)
+			}
 		}
 		cluster.UpdateNodeClaim(nc)
+		if withNode {
+			if err := cluster.UpdateNode(ctx, node); err != nil {
+				panic(err)
+			}
+		}
+		switch st {
+		case nsDisruptedTaint:
+			// exactly what disruption.Queue.markDisrupted does, followed by the informer delivery
+			for _, sn := range cluster.DeepCopyNodes() {
+				if sn.Node != nil && sn.Node.Name == name {
+					if err := state.RequireNoScheduleTaint(ctx, cl, true, sn); err != nil {
+						panic(err)
+					}
+				}
+			}
+			tainted := &corev1.Node{}
+			if err := cl.Get(ctx, client.ObjectKey{Name: name}, tainted); err != nil {
+				panic(err)
+			}
+			if !lo.ContainsBy(tainted.Spec.Taints, func(t corev1.Taint) bool { return t.MatchTaint(&v1.DisruptedNoScheduleTaint) }) {
+				panic("harness: disrupted taint was not applied")
+			}
+			if err := cluster.UpdateNode(ctx, tainted); err != nil {
+				panic(err)
+			}
+		case nsMarkedForDeletion:
+			cluster.MarkForDeletion(nc.Status.ProviderID)
+			marked[name] = true
+		}
+		stateOf[name] = st
+		c.Count("P:existing:" + nstateNames[st][1:])
 	}
 
 	// pod batch
@@ -162,12 +253,18 @@ func runP(c *kit.Ctx, r *kit.Rand, mode int) {
 	if corpus {
 		nPods = 4
 	}
+	if mode == 4 {
+		nPods, anti = 2, false
+	}
 	var pods []*corev1.Pod
 	var jpods []string
 	for i := 0; i < nPods; i++ {
 		cpuReq := kit.Pick(r, []string{"100m", "500m", "900m", "1500m", "3", "6"})
 		if corpus {
 			cpuReq = "1"
+		}
+		if mode == 4 {
+			cpuReq = "1500m"
 		}
 		opts := test.PodOptions{ObjectMeta: metav1.ObjectMeta{Name: fmt.Sprintf("p%d", i), UID: types.UID(fmt.Sprintf("uid-p%d", i))},
 			ResourceRequirements: corev1.ResourceRequirements{Requests: corev1.ResourceList{corev1.ResourceCPU: resource.MustParse(cpuReq)}}}
@@ -194,14 +291,50 @@ func runP(c *kit.Ctx, r *kit.Rand, mode int) {
 	}
 	remaining := s.VerifC03RemainingResources()["pool"]
 
-	// existing capacity as the scheduler saw it (sorted for a canonical case)
-	var existing []corev1.ResourceList
-	for _, n := range active {
-		if n.Labels()[v1.NodePoolLabelKey] == "pool" {
-			existing = append(existing, n.Capacity())
+	// The pool's nodes recomputed from the API objects, independent of what the scheduler built: every NodeClaim of
+	// the pool with its Node's (else its own) status capacity + one node; being deleted = deletionTimestamp in the
+	// API or marked for deletion by this harness. Sorted for a canonical case.
+	type enode struct {
+		st   int
+		caps corev1.ResourceList
+	}
+	var all []enode
+	var existing []corev1.ResourceList // the ones that are not being deleted
+	nDeleting := 0
+	ncl := &v1.NodeClaimList{}
+	if err := cl.List(ctx, ncl); err != nil {
+		panic(err)
+	}
+	for i := range ncl.Items {
+		nc := &ncl.Items[i]
+		if nc.Labels[v1.NodePoolLabelKey] != "pool" {
+			continue
+		}
+		caps := nc.Status.Capacity
+		node := &corev1.Node{}
+		if err := cl.Get(ctx, client.ObjectKey{Name: nc.Name}, node); err == nil {
+			caps = node.Status.Capacity
+		}
+		caps = lo.Assign(caps, corev1.ResourceList{"nodes": *resource.NewQuantity(1, resource.DecimalSI)})
+		st := stateOf[nc.Name]
+		beingDeleted := !nc.DeletionTimestamp.IsZero() || marked[nc.Name]
+		if beingDeleted != (st == nsDeleting || st == nsMarkedForDeletion) {
+			panic("harness: API state and generated lifecycle state disagree for " + nc.Name)
+		}
+		all = append(all, enode{st, caps})
+		if beingDeleted {
+			nDeleting++
+		} else {
+			existing = append(existing, caps)
 		}
 	}
-	sort.Slice(existing, func(i, j int) bool { return gRL(existing[i]) < gRL(existing[j]) })
+	sort.Slice(all, func(i, j int) bool {
+		return fmt.Sprint(all[i].st, gRL(all[i].caps)) < fmt.Sprint(all[j].st, gRL(all[j].caps))
+	})
+	gnodes := kit.GListOf(all, func(e enode) string { return kit.GPair(nstateNames[e.st], gRL(e.caps)) })
+	jnodes := lo.Map(all, func(e enode, _ int) map[string]interface{} {
+		return map[string]interface{}{"state": nstateNames[e.st][1:], "capacity": milli(e.caps)}
+	})
 
 	// adversarial launch: per NodeClaim one of its options (the largest half of the time), one of its offerings
 	usage := map[string]int64{}
@@ -309,8 +442,8 @@ func runP(c *kit.Ctx, r *kit.Rand, mode int) {
 	if len(gclaims) > 0 {
 		key = fmt.Sprintf("P:%v|%v|%v|%v|%v", milli(limits), jcat, jpods, jclaims, jlaunched)
 	}
-	g := fmt.Sprintf("CaseP %s %s %s %s %s %s", kit.GBool(anti), gRL(limits), kit.GListOf(existing, gRL), kit.GList(gclaims), gRL(remaining), kit.GList(glaunched))
-	c.AddCase(g, pcase{Kind: "pass", KfKey: kf, Limits: milli(limits), Catalog: jcat, Existing: lo.Map(existing, func(e corev1.ResourceList, _ int) map[string]int64 { return milli(e) }),
+	g := fmt.Sprintf("CaseP %s %s %s %s %s %s", kit.GBool(anti), gRL(limits), gnodes, kit.GList(gclaims), gRL(remaining), kit.GList(glaunched))
+	c.AddCase(g, pcase{Kind: "pass", KfKey: kf, Limits: milli(limits), Catalog: jcat, Existing: jnodes,
 		Deleting: nDeleting, Pods: jpods, Anti: anti, Claims: jclaims, Launched: jlaunched, Remaining: milli(remaining), Exceeded: exceeded}, key)
 }
 
@@ -320,6 +453,7 @@ func partP(c *kit.Ctx) int {
 		n = 2000
 	}
 	runP(c, c.Rand.Fork(), 3) // corpus first
+	runP(c, c.Rand.Fork(), 4)
 	for i := 0; i < n; i++ {
 		runP(c, c.Rand.Fork(), i%3)
 	}
